@@ -88,6 +88,28 @@ CHECKS.update({
     ),
 })
 
+ENUM = "bounded-exhaustive enumeration (every value up to a node count over a leaf/key alphabet) x (every option record within two field deviations of a preset, thresholds straddling the actual widths)"
+CHECKS.update({
+    "C04": (
+        "chk-print", EX, ENUM + "; print with the real printer, re-parse with the real parser",
+        "Every value with <= 4 (quick) / <= 5 (thorough) nodes over the shape alphabet and <= 3 nodes over the rich alphabet (heap-spilled numbers, a string with every escape class, controls, DEL, U+2028, non-BMP, U+FFFF, the empty key, duplicate keys) is printed under the three presets and under every record that differs from a preset in at most two of the 15 fields (numeric fields 0..3, 8 indent units, all Limit variants with thresholds W-1, W, W+1 around every container's actual one-line width), thorough adds the full {0,1}^12 x 3 indents x 36 limit pairs grid; every Unicode scalar value is round-tripped as key and string. Each output must parse (strict) to a value equal to the original.",
+        "Relies on C01/C02 for the parser. Values beyond the node bound and records more than two fields away from a preset (outside the thorough grid) are not covered.",
+        "4/C04",
+    ),
+    "C08": (
+        "chk-print", EX, "complete enumeration of the Unicode scalar domain + bounded-exhaustive structured values against a reference RFC 8785 serializer",
+        "All 1 112 064 scalar values as a one-character string, as key and value, and inside an array string, plus all structured values of the C04 families: compact_print, to_string, Display, String::from and print_with(compact) must be byte-identical to the reference serializer and contain no whitespace outside strings.",
+        "Complete over the character domain; structured values bounded as in C04.",
+        "4/C08",
+    ),
+    "C13": (
+        "chk-print", EX, ENUM + "; byte-for-byte against an independent reference layout printer",
+        "The same product as C04; the output must equal R-print (written from the option documentation, width = characters actually printed measured on the one-line text itself) byte for byte; the inline and compact presets never emit a line break; pretty_print equals print_with(pretty).",
+        "Points the documentation leaves open (which spacing is printed in expanded form, expanded empty containers) are taken from the current behaviour (DESIGN A.5) - the check pins them rather than judging them.",
+        "4/C13",
+    ),
+})
+
 NOT_YET = {}
 
 props = [json.loads(l) for l in open(f"{root}/properties.jsonl")]
